@@ -84,7 +84,12 @@ func (e *Engine) callBuiltin(st *State, fr *Frame, b *ssa.Builtin, args []Value,
 		n := *co
 		n.Closed = true
 		st.heap[ch.Obj] = &n
-		return retExit(st, nil)
+		var px []exit
+		var out []exit
+		for _, s2 := range e.wake(st, ch.Obj, &px) {
+			out = append(out, exit{st: s2, kind: exitReturn})
+		}
+		return append(out, px...)
 	case "print", "println":
 		return retExit(st, nil)
 	case "recover":
@@ -217,10 +222,6 @@ func (e *Engine) chanRecv(st *State, ch ChanV, t types.Type, commaOk bool) (Valu
 }
 
 func (e *Engine) schedSendOK(st *State, ch ChanV) bool { return false }
-
-func (e *Engine) spawn(st *State, fr *Frame, fv Value, args []Value, c *ssa.CallCommon) bool {
-	return false
-}
 
 // ---------------------------------------------------------------- findings
 
